@@ -3,7 +3,6 @@ Spec: Fees.tla (precise operators), FeesProps.tla (monitors + the event the oper
 MC_Fees (bounded exhaustive model), Trace_Fees (TLC trace validation of the real code)."""
 import json
 import vlib
-from props import _mcfast
 
 # the finite domain: must equal the CONSTANTS of specs/MC_Fees*.cfg (and the sets in MC_Fees.tla)
 DOMAIN = {
@@ -55,7 +54,7 @@ def run(ctx):
     dom = DOMAIN["quick" if ctx.quick else "thorough"]
     # 1. the design (precise operators) satisfies the monitors on the whole bounded domain, except the
     #    recorded finding class, whose concrete witness is asserted to fail (ASSUME WitnessFails)
-    r = _mcfast.model_check(ctx, "MC_Fees", cfg=dom["cfg"], workers=8, timeout=900 if ctx.quick else 1500)
+    r = ctx.model_check("MC_Fees", coverage=False, cfg=dom["cfg"], workers=8, timeout=900 if ctx.quick else 1500)
     # 2. the same finite domain through the real code
     tr = ctx.path("small.ndjson")
     args = ["small", "--out", tr]
